@@ -119,12 +119,41 @@ Proof.
 Qed.
 Lemma fval_eqb_sym a b : fval_eqb a b = fval_eqb b a.
 Proof. destruct a, b; cbn; try reflexivity; first [apply N.eqb_sym|apply bytes_eqb_sym]. Qed.
-Lemma opt_fval_eqb_eq a b : opt_fval_eqb a b = true -> a = b.
-Proof. destruct a, b; cbn; try discriminate; [|reflexivity]. intros H. f_equal. now apply fval_eqb_eq. Qed.
+(* equality of two fields where an absent field stands for the zero value *)
+Definition val_agree (a b : option fval) : Prop :=
+  match a, b with
+  | Some x, Some y => x = y
+  | None, None => True
+  | Some x, None | None, Some x => x = zero_like x
+  end.
+Lemma opt_fval_eqb_agree a b : opt_fval_eqb a b = true -> val_agree a b.
+Proof.
+  destruct a as [x|], b as [y|]; cbn; try tauto; intros H; apply fval_eqb_eq in H; congruence.
+Qed.
 Lemma opt_fval_eqb_sym a b : opt_fval_eqb a b = opt_fval_eqb b a.
-Proof. destruct a, b; cbn; try reflexivity. apply fval_eqb_sym. Qed.
-Lemma opt_fval_eqb_trans a b c : opt_fval_eqb a b = true -> opt_fval_eqb b c = true -> opt_fval_eqb a c = true.
-Proof. intros H1 H2. apply opt_fval_eqb_eq in H1. now subst. Qed.
+Proof. destruct a, b; cbn; try reflexivity; apply fval_eqb_sym. Qed.
+Lemma val_agree_as_n a b : val_agree a b -> as_n a = as_n b.
+Proof. destruct a as [[]|], b as [[]|]; cbn; try congruence; try discriminate; reflexivity. Qed.
+(* Transitivity needs the two outer values to be of one Go type: untyped, an
+   absent middle value is the zero of both a number and a string. *)
+Inductive vclass := C_n | C_s | C_ss | C_b | C_enc | C_ns | C_pairs | C_apl.
+Definition class_of (x : fval) : vclass :=
+  match x with
+  | V_n _ => C_n | V_s _ => C_s | V_ss _ => C_ss | V_b _ => C_b | V_enc _ => C_enc
+  | V_ns _ => C_ns | V_pairs _ => C_pairs | V_apl _ => C_apl
+  end.
+Definition kinds_ok (a c : option fval) : Prop :=
+  match a, c with Some x, Some y => class_of x = class_of y | _, _ => True end.
+(* the two RDATA values hold the same kind of value wherever both hold one *)
+Definition same_shape (v1 v3 : rdata) : Prop := forall f, kinds_ok (vget v1 f) (vget v3 f).
+
+Lemma opt_fval_eqb_trans a b c : kinds_ok a c ->
+  opt_fval_eqb a b = true -> opt_fval_eqb b c = true -> opt_fval_eqb a c = true.
+Proof.
+  intros K. destruct a as [[]|], c as [[]|]; cbn in K; try discriminate K; clear K;
+    destruct b as [[]|]; cbn [opt_fval_eqb fval_eqb zero_like]; try discriminate; try reflexivity;
+    rewrite ?N.eqb_eq, ?bytes_eqb_eq; congruence.
+Qed.
 
 (* which values a field compared with != may hold: a scalar, or absent (zero value) *)
 Definition is_scalar (o : option fval) : bool :=
@@ -138,22 +167,6 @@ Qed.
 (* ---------- the boolean of one comparison ---------- *)
 Definition gob (b : bool) : res (option bool) := if b then Ok None else Ok (Some false).
 
-Definition len_rel (o1 o2 : option fval) : bool :=
-  match o1, o2 with
-  | Some (V_ss a), Some (V_ss b) => Nat.eqb (length a) (length b)
-  | Some (V_ns a), Some (V_ns b) => Nat.eqb (length a) (length b)
-  | Some (V_apl a), Some (V_apl b) => Nat.eqb (length a) (length b)
-  | Some (V_pairs a), Some (V_pairs b) => Nat.eqb (length a) (length b)
-  | None, None => true
-  | _, _ => false
-  end.
-Definition each_rel (o1 o2 : option fval) : bool :=
-  match o1, o2 with
-  | Some (V_ss a), Some (V_ss b) => list_eqb bytes_eqb a (firstn (length a) b)
-  | Some (V_ns a), Some (V_ns b) => list_eqb N.eqb a (firstn (length a) b)
-  | None, None => true
-  | _, _ => false
-  end.
 Definition gw_rel (tyf : string) (mask : N) (addrf hostf : string) (v1 v2 : rdata) : bool :=
   let ty := N.land (vget_n v1 tyf) mask in
   if (ty =? gw_v4) || (ty =? gw_v6) then ip_equal (as_b (vget v1 addrf)) (as_b (vget v2 addrf))
@@ -191,8 +204,29 @@ Definition is_plain (c : dcmp) : bool := match c with D_const _ | D_other _ => f
 
 Lemma len_rel_lengths o1 o2 : len_rel o1 o2 = true -> length (as_pairs o1) = length (as_pairs o2).
 Proof.
-  destruct o1 as [[]|], o2 as [[]|]; cbn; try discriminate; try reflexivity.
-  intros H. now apply Nat.eqb_eq.
+  destruct o1 as [[]|], o2 as [[]|]; cbn; try discriminate; try reflexivity; intros H; now apply Nat.eqb_eq.
+Qed.
+Lemma len_rel_as_ss o1 o2 : len_rel o1 o2 = true -> length (as_ss o1) = length (as_ss o2).
+Proof.
+  destruct o1 as [[]|], o2 as [[]|]; cbn; try discriminate; try reflexivity; intros H; now apply Nat.eqb_eq.
+Qed.
+Lemma len_rel_as_ns o1 o2 : len_rel o1 o2 = true -> length (as_ns o1) = length (as_ns o2).
+Proof.
+  destruct o1 as [[]|], o2 as [[]|]; cbn; try discriminate; try reflexivity; intros H; now apply Nat.eqb_eq.
+Qed.
+Lemma len_rel_as_apl o1 o2 : len_rel o1 o2 = true -> length (as_apl o1) = length (as_apl o2).
+Proof.
+  destruct o1 as [[]|], o2 as [[]|]; cbn; try discriminate; try reflexivity; intros H; now apply Nat.eqb_eq.
+Qed.
+(* after the length test the element loop is plain list equality *)
+Definition each_full (o1 o2 : option fval) : bool :=
+  if kind_ss o1 && kind_ss o2 then list_eqb bytes_eqb (as_ss o1) (as_ss o2)
+  else if kind_ns o1 && kind_ns o2 then list_eqb N.eqb (as_ns o1) (as_ns o2)
+  else false.
+Lemma each_rel_full o1 o2 : len_rel o1 o2 = true -> each_rel o1 o2 = each_full o1 o2.
+Proof.
+  intros L. unfold each_rel, each_full.
+  now rewrite (len_rel_as_ss _ _ L), (len_rel_as_ns _ _ L), !firstn_all.
 Qed.
 
 Lemma dup_cmp_plain c v1 v2 : is_plain c = true -> pre_b c v1 v2 = true ->
@@ -317,20 +351,42 @@ Proof.
   - reflexivity.
 Qed.
 
+Ltac lr := cbn [len_rel each_rel each_full kind_ss kind_ns kind_apl kind_pairs as_ss as_ns as_apl as_pairs andb].
+
 Lemma len_rel_sym o1 o2 : len_rel o1 o2 = len_rel o2 o1.
-Proof. destruct o1 as [[]|], o2 as [[]|]; cbn; try reflexivity; apply Nat.eqb_sym. Qed.
-Lemma len_rel_trans o1 o2 o3 : len_rel o1 o2 = true -> len_rel o2 o3 = true -> len_rel o1 o3 = true.
+Proof. destruct o1 as [[]|], o2 as [[]|]; lr; try reflexivity; apply Nat.eqb_sym. Qed.
+Lemma len_rel_trans o1 o2 o3 : kinds_ok o1 o3 ->
+  len_rel o1 o2 = true -> len_rel o2 o3 = true -> len_rel o1 o3 = true.
 Proof.
-  destruct o1 as [[]|], o2 as [[]|]; cbn; try discriminate; destruct o3 as [[]|]; cbn; try discriminate;
-    rewrite ?Nat.eqb_eq; congruence.
+  intros K. destruct o1 as [[]|], o3 as [[]|]; cbn in K; try discriminate K; clear K;
+    destruct o2 as [[]|]; lr; try discriminate; rewrite ?Nat.eqb_eq; congruence.
 Qed.
 
-(* length test and element loop together: plain list equality under the element test *)
-Definition len_each {A} (e : A -> A -> bool) (a b : list A) : bool :=
-  Nat.eqb (length a) (length b) && list_eqb e a (firstn (length a) b).
-
 Lemma vget_n_eq v1 v2 f : opt_fval_eqb (vget v1 f) (vget v2 f) = true -> vget_n v1 f = vget_n v2 f.
-Proof. intros H. apply opt_fval_eqb_eq in H. unfold vget_n. now rewrite H. Qed.
+Proof.
+  unfold vget_n. destruct (vget v1 f) as [[]|], (vget v2 f) as [[]|]; cbn [opt_fval_eqb fval_eqb zero_like];
+    try discriminate; try reflexivity; rewrite N.eqb_eq; congruence.
+Qed.
+
+Lemma each_full_sym o1 o2 : each_full o1 o2 = each_full o2 o1.
+Proof.
+  unfold each_full. rewrite (andb_comm (kind_ss o2)), (andb_comm (kind_ns o2)),
+    (list_eqb_sym bytes_eqb bytes_eqb_sym (as_ss o2)), (list_eqb_sym N.eqb N.eqb_sym (as_ns o2)). reflexivity.
+Qed.
+Lemma each_full_trans o1 o2 o3 : kinds_ok o1 o3 ->
+  each_full o1 o2 = true -> each_full o2 o3 = true -> each_full o1 o3 = true.
+Proof.
+  intros K. destruct o1 as [[]|], o3 as [[]|]; cbn in K; try discriminate K; clear K;
+    destruct o2 as [[]|]; lr; try discriminate; try reflexivity; intros H1 H2;
+    first [ eapply (list_eqb_trans bytes_eqb); [intros x y z; rewrite !bytes_eqb_eq; congruence|exact H1|exact H2]
+          | eapply (list_eqb_trans N.eqb); [apply Neqb_trans|exact H1|exact H2]
+          | (destruct l; [reflexivity|discriminate]) ].
+Qed.
+
+(* pre-test and element loop of a list field, as plain list equality *)
+Lemma len_loop {A} (e : A -> A -> bool) (a b : list A) : length a = length b ->
+  list_eqb e a (firstn (length a) b) = list_eqb e a b.
+Proof. intros L. now rewrite L, firstn_all. Qed.
 
 Lemma ideal_sym c v1 v2 : ideal c v1 v2 = ideal c v2 v1.
 Proof.
@@ -338,15 +394,14 @@ Proof.
   - apply opt_fval_eqb_sym.
   - apply name_eq_ci_sym.
   - apply len_rel_sym.
-  - destruct (vget v1 f) as [[]|], (vget v2 f) as [[]|]; cbn [len_rel each_rel]; try reflexivity;
-      rewrite ?andb_false_r; try reflexivity;
-      rewrite !list_eqb_firstn; apply list_eqb_sym; [apply bytes_eqb_sym|apply N.eqb_sym].
-  - destruct (vget v1 f) as [[]|], (vget v2 f) as [[]|]; cbn; try reflexivity;
-      try (f_equal; apply Nat.eqb_sym).
-    rewrite !list_eqb_firstn. apply list_eqb_sym, name_eq_ci_sym.
-  - destruct (vget v1 f) as [[]|], (vget v2 f) as [[]|]; cbn; try reflexivity;
-      try (f_equal; apply Nat.eqb_sym).
-    rewrite !list_eqb_firstn. apply list_eqb_sym, apl_equals_sym.
+  - rewrite (len_rel_sym (vget v2 f)). destruct (len_rel (vget v1 f) (vget v2 f)) eqn:L; [|reflexivity].
+    cbn [andb]. rewrite !each_rel_full by first [exact L|rewrite len_rel_sym; exact L]. apply each_full_sym.
+  - rewrite (len_rel_sym (vget v2 f)). destruct (len_rel (vget v1 f) (vget v2 f)) eqn:L; [|reflexivity].
+    cbn [andb]. pose proof (len_rel_as_ss _ _ L) as E. rewrite !len_loop by congruence.
+    apply list_eqb_sym, name_eq_ci_sym.
+  - rewrite (len_rel_sym (vget v2 f)). destruct (len_rel (vget v1 f) (vget v2 f)) eqn:L; [|reflexivity].
+    cbn [andb]. pose proof (len_rel_as_apl _ _ L) as E. rewrite !len_loop by congruence.
+    apply list_eqb_sym, apl_equals_sym.
   - apply ip_equal_sym.
   - rewrite len_rel_sym. f_equal. apply list_eqb_sym, pair_eqb_sym.
   - rewrite (opt_fval_eqb_sym (vget v2 tyf)).
@@ -357,33 +412,23 @@ Proof.
   - reflexivity.
 Qed.
 
-Lemma len_each_trans {A} (e : A -> A -> bool) :
-  (forall x y z, e x y = true -> e y z = true -> e x z = true) ->
-  forall a b c, len_each e a b = true -> len_each e b c = true -> len_each e a c = true.
-Proof. intros T a b c. unfold len_each. rewrite !list_eqb_firstn. now apply list_eqb_trans. Qed.
-
-Lemma ideal_trans c v1 v2 v3 : ideal c v1 v2 = true -> ideal c v2 v3 = true -> ideal c v1 v3 = true.
+Lemma ideal_trans c v1 v2 v3 : same_shape v1 v3 ->
+  ideal c v1 v2 = true -> ideal c v2 v3 = true -> ideal c v1 v3 = true.
 Proof.
-  unfold ideal. destruct c; cbn [pre_b rawb andb].
-  - apply opt_fval_eqb_trans.
+  intros SH. unfold ideal. destruct c; cbn [pre_b rawb andb].
+  - apply opt_fval_eqb_trans, SH.
   - apply name_eq_ci_trans.
-  - apply len_rel_trans.
-  - destruct (vget v1 f) as [[]|], (vget v2 f) as [[]|]; cbn [len_rel each_rel]; rewrite ?andb_false_r; try discriminate;
-      destruct (vget v3 f) as [[]|]; cbn [len_rel each_rel]; rewrite ?andb_false_r; try discriminate; try reflexivity.
-    + apply (len_each_trans bytes_eqb). intros x y z. rewrite !bytes_eqb_eq. congruence.
-    + apply (len_each_trans N.eqb). apply Neqb_trans.
-  - destruct (vget v1 f) as [[]|], (vget v2 f) as [[]|]; cbn; try discriminate;
-      destruct (vget v3 f) as [[]|]; cbn; try discriminate; try reflexivity;
-      try (rewrite !andb_true_r, !Nat.eqb_eq; congruence).
-    apply (len_each_trans name_eq_ci). apply name_eq_ci_trans.
-  - destruct (vget v1 f) as [[]|], (vget v2 f) as [[]|]; cbn; try discriminate;
-      destruct (vget v3 f) as [[]|]; cbn; try discriminate; try reflexivity;
-      try (rewrite !andb_true_r, !Nat.eqb_eq; congruence).
-    apply (len_each_trans apl_equals). apply apl_equals_trans.
+  - apply len_rel_trans, SH.
+  - rewrite !andb_true_iff. intros [A B] [C D]. pose proof (len_rel_trans _ _ _ (SH f) A C) as L. split; [exact L|].
+    rewrite each_rel_full in * by assumption. eapply each_full_trans; eauto.
+  - rewrite !andb_true_iff. intros [A B] [C D]. pose proof (len_rel_trans _ _ _ (SH f) A C) as L. split; [exact L|].
+    rewrite len_loop in * by (now apply len_rel_as_ss). eapply list_eqb_trans; [apply name_eq_ci_trans|exact B|exact D].
+  - rewrite !andb_true_iff. intros [A B] [C D]. pose proof (len_rel_trans _ _ _ (SH f) A C) as L. split; [exact L|].
+    rewrite len_loop in * by (now apply len_rel_as_apl). eapply list_eqb_trans; [apply apl_equals_trans|exact B|exact D].
   - apply ip_equal_trans.
-  - rewrite !andb_true_iff. intros [A B] [C D]. split; [eapply len_rel_trans; eauto|].
+  - rewrite !andb_true_iff. intros [A B] [C D]. split; [eapply len_rel_trans; eauto; apply SH|].
     eapply list_eqb_trans; [apply pair_eqb_trans|exact B|exact D].
-  - rewrite !andb_true_iff. intros [A B] [C D]. split; [eapply opt_fval_eqb_trans; eauto|].
+  - rewrite !andb_true_iff. intros [A B] [C D]. split; [eapply opt_fval_eqb_trans; eauto; apply SH|].
     unfold gw_rel in *. rewrite <- (vget_n_eq _ _ _ A) in D.
     destruct ((N.land (vget_n v1 tyf) mask =? gw_v4) || (N.land (vget_n v1 tyf) mask =? gw_v6)).
     + eapply ip_equal_trans; eauto.
@@ -413,10 +458,10 @@ Proof.
   destruct c; cbn [all_ideal]; try reflexivity; now rewrite IH, ideal_sym.
 Qed.
 
-Lemma all_ideal_trans cs v1 v2 v3 :
+Lemma all_ideal_trans cs v1 v2 v3 : same_shape v1 v3 ->
   all_ideal cs v1 v2 = true -> all_ideal cs v2 v3 = true -> all_ideal cs v1 v3 = true.
 Proof.
-  induction cs as [|c r IH]; [reflexivity|].
+  intros SH. induction cs as [|c r IH]; [reflexivity|].
   destruct c; cbn [all_ideal]; try (intros; assumption);
     rewrite !andb_true_iff; intros [A B] [C D]; (split; [eapply ideal_trans; eauto|now apply IH]).
 Qed.
@@ -446,10 +491,10 @@ Proof. intros W N T. rewrite (dup_cmps_ideal cs v v W). f_equal. now apply all_i
 Lemma dup_cmps_sym cs v1 v2 : cmps_wf cs = true -> dup_cmps cs v1 v2 = dup_cmps cs v2 v1.
 Proof. intros W. rewrite !dup_cmps_ideal by exact W. f_equal. apply all_ideal_sym. Qed.
 
-Lemma dup_cmps_trans cs v1 v2 v3 : cmps_wf cs = true ->
+Lemma dup_cmps_trans cs v1 v2 v3 : cmps_wf cs = true -> same_shape v1 v3 ->
   dup_cmps cs v1 v2 = Ok true -> dup_cmps cs v2 v3 = Ok true -> dup_cmps cs v1 v3 = Ok true.
 Proof.
-  intros W. rewrite !dup_cmps_ideal by exact W. intros H1 H2. injection H1 as H1. injection H2 as H2.
+  intros W SH. rewrite !dup_cmps_ideal by exact W. intros H1 H2. injection H1 as H1. injection H2 as H2.
   f_equal. eapply all_ideal_trans; eauto.
 Qed.
 
@@ -461,9 +506,9 @@ Qed.
 
 (* what a true verdict says about single fields *)
 Lemma dup_cmps_true_eq_field cs v1 v2 f : cmps_wf cs = true ->
-  dup_cmps cs v1 v2 = Ok true -> In (D_eq f) cs -> vget v1 f = vget v2 f.
+  dup_cmps cs v1 v2 = Ok true -> In (D_eq f) cs -> val_agree (vget v1 f) (vget v2 f).
 Proof.
-  intros W H Hin. apply opt_fval_eqb_eq.
+  intros W H Hin. apply opt_fval_eqb_agree.
   exact (dup_cmps_true_in cs v1 v2 (D_eq f) W H Hin eq_refl).
 Qed.
 Lemma dup_cmps_true_name_field cs v1 v2 f : cmps_wf cs = true ->
@@ -542,10 +587,10 @@ Proof.
   apply dup_cmps_sym. exact (find_dup_wf _ _ F).
 Qed.
 
-Lemma is_duplicate_trans r1 r2 r3 :
+Lemma is_duplicate_trans r1 r2 r3 : same_shape (rr_data r1) (rr_data r3) ->
   is_duplicate r1 r2 = Ok true -> is_duplicate r2 r3 = Ok true -> is_duplicate r1 r3 = Ok true.
 Proof.
-  intros H1 H2. apply is_duplicate_true_inv in H1, H2.
+  intros SH H1 H2. apply is_duplicate_true_inv in H1, H2.
   destruct H1 as [A [K [cs [F D]]]], H2 as [A' [K' [cs' [F' D']]]].
   rewrite <- K in F'. rewrite F in F'. injection F' as <-.
   rewrite is_duplicate_unfold, (hdr_eq_trans _ _ _ A A'). cbn [negb].
@@ -677,8 +722,7 @@ Section CaseVariant.
     destruct c; cbn [ci_ok]; intros H; try apply negb_true_iff in H; cbn [dup_cmp]; try reflexivity.
     - destruct (cv_other _ H) as [-> ->]. reflexivity.
     - destruct (cv_any f0) as [A B]. now rewrite (name_eq_ci_lower _ _ _ _ (cv_as_s _ _ A) (cv_as_s _ _ B)).
-    - destruct (cv_any f0) as [A B]. fold (len_rel (vget v1' f0) (vget v2' f0)). fold (len_rel (vget v1 f0) (vget v2 f0)).
-      now rewrite (cv_len_rel _ _ _ _ A B).
+    - destruct (cv_any f0) as [A B]. now rewrite (cv_len_rel _ _ _ _ A B).
     - destruct (cv_other _ H) as [-> ->]. reflexivity.
     - destruct (cv_any f0) as [A B]. now rewrite (each_name_lower _ _ _ _ (cv_as_ss _ _ A) (cv_as_ss _ _ B)).
     - destruct (cv_other _ H) as [-> ->]. reflexivity.
@@ -820,7 +864,7 @@ Qed.
 (* packaged statements for Props/C20.v *)
 Lemma dup_cmps_true_fields cs v1 v2 f :
   cmps_wf cs = true -> dup_cmps cs v1 v2 = Ok true ->
-  (In (D_eq f) cs -> vget v1 f = vget v2 f) /\
+  (In (D_eq f) cs -> val_agree (vget v1 f) (vget v2 f)) /\
   (In (D_name f) cs -> lower_bytes (as_s (vget v1 f)) = lower_bytes (as_s (vget v2 f))).
 Proof.
   intros W H. split; intro Hin.
@@ -842,3 +886,11 @@ Lemma is_duplicate_opt_irrefl r : rr_kind r = "OPT"%string -> is_duplicate r r =
 Proof. apply is_duplicate_opt_false. Qed.
 Lemma is_duplicate_private_irrefl r : rr_kind r = "PrivateRR"%string -> is_duplicate r r = Ok false.
 Proof. apply is_duplicate_private_false. Qed.
+
+(* without same_shape transitivity fails in the model: an absent field is the
+   zero of a number and of a string *)
+Lemma dup_cmps_trans_untyped_witness :
+  let cs := [D_eq "X"; D_const true] in
+  let v1 := [("X"%string, V_n 0)] in let v2 : rdata := [] in let v3 := [("X"%string, V_s [])] in
+  cmps_wf cs = true /\ dup_cmps cs v1 v2 = Ok true /\ dup_cmps cs v2 v3 = Ok true /\ dup_cmps cs v1 v3 = Ok false.
+Proof. vm_compute. repeat split. Qed.
